@@ -115,10 +115,21 @@ impl V {
                 }
             }
             V::Iso(w) => {
+                // validity by the reference calendar, not by the constructor under test
+                let (y, wk, wd) = (w.year() as i64, w.week() as i64, w.weekday().to_monday_one_offset() as i64);
+                let day = cal::days_from_iso(y, wk, wd);
+                if wk < 1 || wk > cal::iso_weeks_in_year(y) || day < cal::MIN_DAY || day > cal::MAX_DAY {
+                    return Err(format!("iso week date {}-W{}-{} does not exist or lies outside the supported range", y, wk, wd));
+                }
+                let (dy, dm, dd) = cal::civil_from_days(day);
+                let d = w.date();
+                if (d.year() as i64, d.month() as i64, d.day() as i64) != (dy, dm, dd) {
+                    return Err(format!("iso week date {}-W{}-{} gives the date {} instead of {}-{}-{}", y, wk, wd, d, dy, dm, dd));
+                }
                 if ISOWeekDate::new(w.year(), w.week(), w.weekday()).ok() != Some(*w) {
                     Err(format!("invalid iso week date {:?}", w))
                 } else {
-                    date_ok(&w.date())
+                    date_ok(&d)
                 }
             }
             V::F64(_) | V::Str(_) => Ok(()),
